@@ -4,8 +4,6 @@
 
 package parser
 
-// FIXME need to implement formfeed
-
 // Lexer should count line numbers too!
 
 import (
@@ -184,6 +182,10 @@ func countIndent(s string) int {
 			//        ab
 			//         a       b
 			indent += tabSize - (indent & (tabSize - 1))
+		case '\f':
+			// A formfeed is ignored for the indentation
+			// calculation: it restarts the count
+			indent = 0
 		default:
 			panic(py.ExceptionNewf(py.IndentationError, "unexpected indent"))
 		}
@@ -435,7 +437,7 @@ func (x *yyLex) Lex(yylval *yySymType) (ret int) {
 			}
 		case readIndent:
 			// Read the initial indent and get rid of it
-			trimmed := strings.TrimLeft(x.line, " \t")
+			trimmed := strings.TrimLeft(x.line, " \t\f")
 			removed := len(x.line) - len(trimmed)
 			x.currentIndent = x.line[:removed]
 			x.pos.ColOffset += removed
@@ -480,7 +482,7 @@ func (x *yyLex) Lex(yylval *yySymType) (ret int) {
 			}
 		case parseTokens:
 			// Skip white space
-			trimmed := strings.TrimLeft(x.line, " \t")
+			trimmed := strings.TrimLeft(x.line, " \t\f")
 			x.pos.ColOffset += len(x.line) - len(trimmed)
 			x.line = trimmed
 
